@@ -712,3 +712,185 @@ Proof.
   cbv zeta. split; [vm_compute; reflexivity|]. split; [vm_compute; reflexivity|].
   split; [vm_compute; reflexivity|reflexivity].
 Qed.
+
+(* ================================================================ the VCF <-> BCF bridge *)
+(* NV.Bcf.Bridge puts the BCF writer and reader on C09's record datatype NV.Vcf.Line.vrec (what a
+   RecordBuf holds): bcf_write = write_record with the INFO writer's dispatch on the value variant
+   and the FORMAT writer's dispatch on the header's Type / Number, bcf_read = read_record_buf with
+   the header's Number/Type choosing every value decoder (dec_record_typed) and the RecordBuf it
+   fills.  Both are compared with the real crates on every `vb` case (one RecordBuf through both
+   real writers and readers). *)
+From NV Require Import Base.Percent Text.TextBase Vcf.Values Vcf.Line Vcf.ValuesProofs Vcf.SampleProofs Vcf.LineProofs.
+From NV Require Import Bcf.Ints Bcf.Typed Bcf.Strings Bcf.Genotype Bcf.StringMap Bcf.StringMapProofs Bcf.Record Bcf.RecordProofs Bcf.BlockProofs Bcf.RecordTyped.
+From NV Require Import Bcf.Bridge Bcf.BridgeProofs.
+Open Scope Z_scope.
+
+(* the block walk with the GT exemption of read_genotype_values (a zero-length GT descriptor is
+   accepted) accepts everything the walk of c10_record_roundtrip accepts, with the same result: the
+   record theorem carries over to the reader the typed record uses *)
+Theorem bcf_record_walk_gt_exemption : forall strings contigs hs bs x,
+  dec_record strings contigs hs bs = Some x -> dec_record_k strings contigs hs bs = Some x.
+Proof. exact dec_record_k_of_dec_record. Qed.
+Print Assumptions bcf_record_walk_gt_exemption.
+
+(* Every INFO field a RecordBuf can hold, THROUGH the header dispatch: the writer picks the encoder
+   from the value's variant, the reader picks the decoder from the header's (Number, Type) of the
+   key; when the two describe the same kind (ikind_val), the value is in BCF's range (bval_ok) and
+   outside the class string-special-chars (info_special, a decidable predicate), the field is
+   self-delimiting and is read back as the same value.  A field whose value is missing (`K=.`) is
+   read back as missing under every kind but Flag. *)
+Theorem c10_info_field_typed_roundtrip : forall kd v,
+  ikind_val kd v -> bval_ok v -> info_special v = false ->
+  exists vb iv, enc_info_val (Some v) = Ok vb /\ sd false 1 vb /\
+                dec_info_kind kd vb = ROk iv /\ value_of_ival iv = Some v.
+Proof. exact info_val_rt. Qed.
+Print Assumptions c10_info_field_typed_roundtrip.
+
+Theorem c10_info_field_missing_roundtrip : forall kd, kd <> KFlag ->
+  exists vb iv, enc_info_val None = Ok vb /\ sd false 1 vb /\
+                dec_info_kind kd vb = ROk iv /\ value_of_ival iv = None.
+Proof. exact info_none_rt. Qed.
+Print Assumptions c10_info_field_missing_roundtrip.
+
+(* `K=.` under a Flag key (a Flag has no value in VCF; outside the property's domain): BCF stores
+   presence only and the field is read back as the Flag being set *)
+Theorem c10_info_flag_missing_refuted :
+  exists vb, enc_info_val None = Ok vb /\ dec_info_kind KFlag vb = ROk IFlagV /\
+             value_of_ival IFlagV = Some VFlag.
+Proof. exact info_flag_missing_refuted. Qed.
+Print Assumptions c10_info_flag_missing_refuted.
+
+(* A whole sites-only record (no FORMAT keys, no samples, header without samples) as a typed
+   record: bcf_write accepts it and bcf_read -- frame, site head, the walk over the INFO block, the
+   header dispatch of every field, the RecordBuf -- returns the record itself.  bcf_site_ok:
+   site_ok of the site fields, IDs and FILTERs without repetition, INFO keys distinct and in the
+   dictionary, every field info_field_ok (defined in the header with an accepted (Number, Type),
+   value of that kind, in range, outside string-special-chars; missing only under a non-Flag key). *)
+Theorem c10_bcf_sites_roundtrip : forall strings contigs h rlen r rest,
+  wf strings -> wf contigs -> sites_only h r -> bcf_site_ok strings contigs h rlen r ->
+  (forall sb, enc_site strings contigs (site_of h rlen r) (info_fields r) 0 = Ok sb ->
+     Z.of_nat (length sb) <= 4294967295) ->
+  exists bs, bcf_write strings contigs h rlen r = Ok bs /\
+             bcf_read strings contigs h (bs ++ rest) = ROk r.
+Proof. exact bcf_sites_roundtrip. Qed.
+Print Assumptions c10_bcf_sites_roundtrip.
+
+(* c10_bcf_vcf_agree, proved for sites-only records (_partial): ONE record, written as VCF text
+   (C09's write_line) and as BCF: the VCF re-read (read_eager; C09's c09_record_line_roundtrip) and
+   the BCF re-read both succeed and have the same content.  [content] is the normal form of
+   NV.Bcf.Bridge; on these records the two re-reads differ at most in REF (the VCF writer resolves
+   IUPAC codes, the BCF writer stores REF raw).  The float premises are those of C09 (the f32 text
+   oracle). *)
+Theorem c10_bcf_vcf_agree_partial :
+  forall fmt_float prs_float (FOK : N -> Prop),
+  (forall b, FOK b -> prs_float (fmt_float b) = Some b) ->
+  (forall b x, FOK b -> In x (fmt_float b) -> x <> 44 /\ x <> 9 /\ x <> 10 /\ x <> 59 /\ x <> 58)%N ->
+  (forall b, FOK b -> fmt_float b <> Values.dot) ->
+  (forall b, FOK b -> fmt_float b <> []) ->
+  forall strings contigs h rlen r t rest,
+  wf strings -> wf contigs -> sites_only h r ->
+  rec_ok fmt_float FOK h r -> write_line fmt_float h r = Some t ->
+  bcf_site_ok strings contigs h rlen r ->
+  (forall sb, enc_site strings contigs (site_of h rlen r) (info_fields r) 0 = Ok sb ->
+     Z.of_nat (length sb) <= 4294967295) ->
+  exists bs a b,
+    bcf_write strings contigs h rlen r = Ok bs /\
+    read_eager prs_float h t = Some a /\
+    bcf_read strings contigs h (bs ++ rest) = ROk b /\
+    content (h_v44 h) a = content (h_v44 h) b.
+Proof. exact bcf_vcf_agree_sites. Qed.
+Print Assumptions c10_bcf_vcf_agree_partial.
+
+(* The full statement (records with FORMAT keys and samples) is NOT proved: it needs the
+   per-column counterpart of c10_info_field_typed_roundtrip (the column of a key through
+   enc_fmt_col / enc_gt_col and dec_fmt_kind / dec_gt_col: the series theorems above composed with
+   the header dispatch) and the transposition of the columns into rows (push_col).  It is tested by
+   the `vb` cases (model = implementation on every case, and the oracle compares the contents).
+   fmt_ok: every FORMAT key is defined in the header with an accepted (Number, Type) and every
+   sample holds a value of that kind in BCF's range (a genotype with alleles <= 62 under GT), or is
+   missing (not under GT). *)
+Definition fkind_val (k : name) (kd : fkind) (v : value) : Prop :=
+  if name_eqb k GT then
+    match v with
+    | VGenotype g => g <> [] /\ forall p ph, In (Some p, ph) g -> (p <= 62)%N
+    | _ => False
+    end
+  else
+    bval_ok v /\
+    match kd, v with
+    | FInt true, VInteger _ | FInt false, VIntArr _ | FFloat true, VFloat _ | FFloat false, VFloatArr _
+    | FChar true, VCharacter _ | FChar false, VCharArr _ | FStr true, VString _ | FStr false, VStrArr _ => True
+    | _, _ => False
+    end.
+
+Definition fmt_ok (h : hctx) (r : vrec) : Prop :=
+  forall j k, nth_error (r_keys r) j = Some k ->
+    exists kd, fk_of h k = Some kd /\
+      forall row, In row (r_samples r) ->
+        match nth j row None with
+        | Some v => fkind_val k kd v
+        | None => name_eqb k GT = false
+        end.
+
+Definition c10_bcf_vcf_agree_full_statement : Prop :=
+  forall fmt_float prs_float (FOK : N -> Prop),
+  (forall b, FOK b -> prs_float (fmt_float b) = Some b) ->
+  (forall b x, FOK b -> In x (fmt_float b) -> x <> 44 /\ x <> 9 /\ x <> 10 /\ x <> 59 /\ x <> 58)%N ->
+  (forall b, FOK b -> fmt_float b <> Values.dot) ->
+  (forall b, FOK b -> fmt_float b <> []) ->
+  forall strings contigs h rlen r t bs rest,
+  wf strings -> wf contigs ->
+  rec_ok fmt_float FOK h r -> write_line fmt_float h r = Some t ->
+  bcf_write strings contigs h rlen r = Ok bs ->
+  bcf_special r = false ->
+  site_ok strings contigs (site_of h rlen r) (Z.of_nat (length (r_info r))) (Z.of_nat (length (r_keys r))) ->
+  Forall (info_field_ok h) (r_info r) -> fmt_ok h r ->
+  exists a b,
+    read_eager prs_float h t = Some a /\
+    bcf_read strings contigs h (bs ++ rest) = ROk b /\
+    content (h_v44 h) a = content (h_v44 h) b.
+
+(* non-vacuity: a concrete sites-only record (INFO Integer scalar needing Int16, Integer vector
+   with a missing entry, String, Flag; an IUPAC code in REF) goes through both paths, and the
+   class string-special-chars is inhabited: an empty INFO String is read back as missing *)
+Definition ex_h : hctx :=
+  {| h_v44 := false;
+     h_infos := [([75; 48]%N, (NCount 1, TInteger)); ([75; 49]%N, (NOther, TInteger));
+                 ([75; 50]%N, (NCount 1, TString)); ([75; 51]%N, (NCount 0, TFlag))];
+     h_formats := []; h_nsamples := 0 |}.
+Definition ex_r (s : list N) : vrec :=
+  {| r_chrom := [99]%N; r_pos := 5%N; r_ids := [[114; 115]%N]; r_ref := [82; 65]%N; r_alts := [[84]%N];
+     r_qual := None; r_filters := [];
+     r_info := [([75; 48]%N, Some (VInteger 300)); ([75; 49]%N, Some (VIntArr [Some 1; None]));
+                ([75; 50]%N, Some (VString s)); ([75; 51]%N, Some VFlag)];
+     r_keys := []; r_samples := [] |}.
+
+Example c10_bridge_example :
+  exists strings contigs bs,
+    build_strings [([75; 48]%N, None); ([75; 49]%N, None); ([75; 50]%N, None); ([75; 51]%N, None)] = Some strings /\
+    build_contigs [([99]%N, None)] = Some contigs /\
+    bcf_special (ex_r [120]%N) = false /\
+    bcf_write strings contigs ex_h 2 (ex_r [120]%N) = Ok bs /\
+    bcf_read strings contigs ex_h bs = ROk (ex_r [120]%N) /\
+    r_ref (content false (ex_r [120]%N)) = [65; 65]%N.
+Proof.
+  eexists. eexists. eexists.
+  split; [vm_compute; reflexivity|]. split; [vm_compute; reflexivity|].
+  split; [vm_compute; reflexivity|]. split; [vm_compute; reflexivity|].
+  split; vm_compute; reflexivity.
+Qed.
+
+Example c10_bridge_special_refuted :
+  exists strings contigs bs b,
+    build_strings [([75; 48]%N, None); ([75; 49]%N, None); ([75; 50]%N, None); ([75; 51]%N, None)] = Some strings /\
+    build_contigs [([99]%N, None)] = Some contigs /\
+    bcf_special (ex_r []) = true /\
+    bcf_write strings contigs ex_h 2 (ex_r []) = Ok bs /\
+    bcf_read strings contigs ex_h bs = ROk b /\
+    Line.assoc [75; 50]%N (r_info b) = Some None.
+Proof.
+  eexists. eexists. eexists. eexists.
+  split; [vm_compute; reflexivity|]. split; [vm_compute; reflexivity|].
+  split; [vm_compute; reflexivity|]. split; [vm_compute; reflexivity|].
+  split; vm_compute; reflexivity.
+Qed.
